@@ -226,10 +226,37 @@ fn fmt_auth(a: &sigv4::ParsedAuth) -> String {
 fn mutate(c: &mut Case<'_>, req: &mut Req, signed: &[String]) -> Option<String> {
     let kinds = [
         "signed-header-value", "signed-header-removed", "query-value", "query-name", "query-added", "query-removed", "path-byte", "method", "body-byte", "signature-digit", "access-key-other", "access-key-unknown",
-        "scope-date", "scope-region", "scope-service", "amz-date", "signed-header-added-to-list",
+        "scope-date", "scope-region", "scope-service", "amz-date", "signed-header-added-to-list", "signature-length", "signature-case",
     ];
     let kind = *c.t.pick(&kinds);
     match kind {
+        "signature-length" => {
+            // a proper prefix (including the empty one), or the signature followed by more hex digits
+            let cut = c.t.below(64);
+            let extend = c.t.chance(64);
+            replace_auth_part(req, |a| {
+                let mut a = a.clone();
+                if extend {
+                    a.signature.push_str(&"0a"[..1 + cut % 2]);
+                } else {
+                    a.signature.truncate(cut);
+                }
+                fmt_auth(&a)
+            });
+        }
+        "signature-case" => {
+            let mut changed = false;
+            replace_auth_part(req, |a| {
+                let mut a = a.clone();
+                let up = a.signature.to_ascii_uppercase();
+                changed = up != a.signature;
+                a.signature = up;
+                fmt_auth(&a)
+            });
+            if !changed {
+                return None;
+            }
+        }
         "signed-header-value" => {
             let cands: Vec<usize> = req.headers.iter().enumerate().filter(|(_, (n, _))| signed.contains(n) && n != "x-amz-date" && n != "x-amz-content-sha256").map(|(i, _)| i).collect();
             if cands.is_empty() {
@@ -470,8 +497,13 @@ fn rewrite(c: &mut Case<'_>, req: &mut Req, signed: &[String]) -> Option<String>
             req.query = Some(parts.join("&"));
         }
         "unsigned-header-added" => {
-            let name = format!("x-verif-unsigned-{}", c.t.below(100));
-            req.headers.push((name, "1".into()));
+            // a header outside the signed list, including names the verifier itself reads when they are signed
+            let pool = ["date", "x-amz-expires", "x-amz-security-token", "x-amz-signature", "x-amz-credential", "x-amz-algorithm", "x-amz-signedheaders", "x-forwarded-for", "x-amz-meta-verif-unsigned"];
+            let (name, value) = if c.t.bool() { (format!("x-verif-unsigned-{}", c.t.below(100)), "1".to_owned()) } else { ((*c.t.pick(&pool)).to_owned(), (*c.t.pick(&["1", "20130524T000000Z", "Tue, 27 Mar 2007 19:36:42 +0000", "x"])).to_owned()) };
+            if req.headers.iter().any(|(n, _)| *n == name) {
+                return None;
+            }
+            req.headers.push((name, value));
         }
         "query-spelling" => {
             let q = req.query.clone()?;
